@@ -10,11 +10,20 @@
      (C06_closed_when_done) every channel it owns is closed.
    - CANCEL-EXIT: cancelled + inputs closed + no step enabled => every goroutine has returned and every channel
      is closed, WITHOUT any hypothesis about receives (nobody needs to receive ever again).
-   That runs reach such states (no infinite internal activity, the scheduler lets enabled goroutines run) is
-   scheduler fairness + the structure of the goroutines; see DESIGN.md 5. *)
+   - NO LIVELOCK (C06_internal_steps_terminate, C06_no_infinite_internal_run): for every stage without generator
+     sources (all stages except Unfold, Emit and Throttling's pacer) the internal step relation [istep] - worker
+     steps with either resolution of a select, and the closer - is well-founded from EVERY state, reachable or
+     not: between two environment events (send, close, receive, cancel, gate release, clock advance) the
+     goroutines of the stage take only finitely many steps.  For stages WITH generator sources the same holds
+     (C06_internal_steps_terminate_gen) when every round of a generator contains a blocker - a send on an
+     output 0..K-1 (needs room), a timer of positive duration or a return - and no token receive; this covers
+     Unfold, Emit and Throttling with ops >= 1 or interval > 0 (C06_generator_stages_terminate); without a
+     blocker a generator does spin (pacer_without_blocker_spins in Pipe/PoolVariantStages.v).
+   That runs reach the quiescent states (the scheduler lets enabled goroutines run) is scheduler fairness. *)
 From Coq Require Import List ZArith.
 From Golem Require Import Base.Lists Pipe.Pool Pipe.Stages Pipe.PoolSteps Pipe.PoolSafe Pipe.PoolClosed Pipe.PoolLive
-     Pipe.PoolSimple Pipe.PoolSeq Pipe.PoolStages Pipe.PoolStages2 Pipe.PoolErr Pipe.PoolMultiStages Pipe.PoolGen Pipe.PoolCancel.
+     Pipe.PoolSimple Pipe.PoolSeq Pipe.PoolStages Pipe.PoolStages2 Pipe.PoolErr Pipe.PoolMultiStages Pipe.PoolGen Pipe.PoolCancel
+     Pipe.PoolVariant Pipe.PoolVariantGen Pipe.PoolVariantStages.
 Import ListNotations.
 Open Scope Z_scope.
 
@@ -146,3 +155,51 @@ Theorem C06_stages_wf : forall (f : Z -> res) (fa : Z -> list Z * option Z) (p :
   wf_cfg (unfold_cfg f try seed ocaps) /\ wf_cfg (emit_cfg freq f try ocaps).
 Proof. exact stages_wf. Qed.
 Print Assumptions C06_stages_wf.
+
+(* NO LIVELOCK: the internal moves of a stage without generator sources ([istep]: a worker step with either
+   resolution of a select, or the closer; a panicked program does not move) are well-founded from every state,
+   reachable or not: every sequence of internal steps is finite *)
+Theorem C06_internal_steps_terminate : forall (c : cfg),
+  (forall w, (w < par c)%nat -> exists i, src c w = SIn i) ->
+  forall s : state, Acc (fun s' s0 => istep c s0 s') s.
+Proof. exact internal_steps_terminate. Qed.
+Print Assumptions C06_internal_steps_terminate.
+
+(* [istep] spelled out *)
+Theorem C06_istep_iff : forall (c : cfg) (s s' : state),
+  istep c s s' <->
+  panicked s = false /\
+  ((exists w ch, (w < par c)%nat /\ step_worker c s w ch = Some s') \/ step_ok c s ECloser = Some s').
+Proof. exact istep_iff. Qed.
+Print Assumptions C06_istep_iff.
+
+(* ... so there is no infinite run of internal steps *)
+Theorem C06_no_infinite_internal_run : forall (c : cfg),
+  (forall w, (w < par c)%nat -> exists i, src c w = SIn i) ->
+  forall f : nat -> state, ~ (forall n, istep c (f n) (f (S n))).
+Proof. exact no_infinite_internal_run. Qed.
+Print Assumptions C06_no_infinite_internal_run.
+
+(* NO LIVELOCK with generators: every plan of a generator worker contains a blocker ([hasb K]: a send on one of
+   the outputs 0..K-1, a timer of positive duration, or a return) and no token receive *)
+Theorem C06_internal_steps_terminate_gen : forall (c : cfg) (K : nat),
+  (forall w l a, (w < par c)%nat -> src c w = SGen ->
+     hasb K (fst (plan c w l a)) = true /\ ntokl (fst (plan c w l a)) = 0%nat) ->
+  forall s : state, Acc (fun s' s0 => istep c s0 s') s.
+Proof. exact internal_steps_terminate_gen. Qed.
+Print Assumptions C06_internal_steps_terminate_gen.
+
+(* ... which the generator stages satisfy *)
+Theorem C06_generator_stages_terminate :
+  forall (f : Z -> res) (try : bool) (seed : Z) (freq : N) (ops : nat) (interval : N) (icaps ocaps : list nat) (s : state),
+  Acc (fun s' s0 => istep (unfold_cfg f try seed ocaps) s0 s') s /\
+  Acc (fun s' s0 => istep (emit_cfg freq f try ocaps) s0 s') s /\
+  ((1 <= ops)%nat \/ (0 < interval)%N -> Acc (fun s' s0 => istep (throttle_stage ops interval icaps ocaps) s0 s') s).
+Proof. exact generator_stages_terminate. Qed.
+Print Assumptions C06_generator_stages_terminate.
+
+(* the blocker hypothesis is needed: a pacer with ops = 0 and interval = 0 spins *)
+Theorem C06_generator_without_blocker_spins :
+  let c := throttle_stage 0 0 [] [] in ~ Acc (fun s' s0 => istep c s0 s') (init c).
+Proof. exact pacer_without_blocker_spins. Qed.
+Print Assumptions C06_generator_without_blocker_spins.
